@@ -203,13 +203,14 @@ def check_eval(ctx, cls, fold):
                         ctx.violation("R07-EVAL", cls.file, "%s.%s" % (cls.name, fn.name), norm_src(s), "the list of search points is replaced", s.lineno)
         ctx.count("R07-EVAL SequOOL chosen.append sites", n, 1)
     if cls.name == "StroquOOL":
+        from ..routes import canon_cond
         fn = model.own_method(ncls, "compute_mean_reward")
         Sm = SM.Summarizer(model, ncls)
         ps = Sm.run(fn)
         T = Sm.T
         good = len(ps) == 2
         for p in ps:
-            if ("self.visited_times > 0", True) in p.conds:
+            if canon_cond("self.visited_times > 0", True) in {canon_cond(c0, pol0) for c0, pol0 in p.conds}:
                 m = p.stores.get("mean_reward")
                 eq = m is not None and SX.equivalent(m, SX.SUM(T.sym("rewards")) / SX.LEN(T.sym("rewards")))[0] is True
                 good = good and eq
